@@ -1,6 +1,7 @@
 package airgapped
 
 import (
+	"errors"
 	"fmt"
 	"strings"
 
@@ -18,6 +19,10 @@ func makeBLSKeyKeyringDBKey(key string) string {
 }
 
 func (am *Machine) saveBLSKeyring(dkgID string, blsKeyring *dkg.BLSKeyring) error {
+	// scrypt accepts an empty password: after DropSensitiveData the share would be stored readable by anybody
+	if len(am.encryptionKey) == 0 {
+		return errors.New("failed to save BLSKeyring: encryption password is not set")
+	}
 	salt, err := am.db.Get([]byte(saltDBKey), nil)
 	if err != nil {
 		return fmt.Errorf("failed to read salt from db: %w", err)
